@@ -4,6 +4,30 @@ import json, os, sys
 HERE = os.path.dirname(os.path.dirname(os.path.abspath(__file__)))
 
 CHECKS = {
+    'C01': dict(level='exploration', technique='runtime differential monitor: real decoder output vs LZ77 expansion of generated command lists (reference serialiser), ASan/UBSan-bounds build, tree-invariant hook',
+                text='Generated command lists are serialised by an independent model of the format (every table form, block partition, distance/length extreme; required shapes are asserted to have been reached) and the bytes returned by lha_decoder_read are compared with the LZ77 expansion. Held = no mismatch on the streams this run produced.',
+                note='Trusts vlib/lhamodel/lhnew.py as the reading of the format (it agrees with lhasa, which agrees with real encoders in the repo suite). Finite sample of an infinite stream space.',
+                design='4/C01'),
+    'C02': dict(level='exploration', technique='runtime differential monitor: published LZHUF reference encoder vs lhasa -lh1- decoder over long streams with many tree rebuilds and tie exchanges',
+                text='The classic LZHUF encoder (different formulation from lhasa\'s group-leader decoder) encodes generated symbol streams; any divergence of the two adaptive trees corrupts all later output, so byte equality over streams with dozens of rebuilds is a sensitive observer of lock-step.',
+                note='Lock-step observed through output only; bounded stream lengths (quick: up to 300k symbols, thorough: 1.2M).',
+                design='4/C02'),
+    'C03': dict(level='exploration', technique='runtime differential monitor with exhaustive single-copy probes of both LArc rings, ring models from the format description',
+                text='Every (position, length) pair as first copy command is executed for -lz5- (65536) and -lzs- (32768), which reads the whole initial ring through every seam; plus directed overlap/flag-byte cases, random streams and grids for the stored methods.',
+                note='Exhaustive only for the single-copy sub-space; longer histories sampled.',
+                design='4/C03'),
+    'C04': dict(level='exploration', technique='runtime differential monitor: pm1/pm2 serialiser models (MTF list, table re-read schedule, position-dependent copy codes) vs real decoders; table-index and tree-row hooks',
+                text='All 32 pm1 start trees, copies steered to both sides of every position threshold, pm2 table re-reads at every stage including mid-copy; required shapes asserted reached.',
+                note='No real -pm1- encoder exists; the model is a reading of the format. Copies only from produced data.',
+                design='4/C04'),
+    'C09': dict(level='exploration', technique='sanitizers (ASan + bounds-UBSan) on hostile compressed data, split-allocation driver of the per-type callbacks, invariant hooks on trees/table indices',
+                text='Each decoder is fed constant fills, random bytes, corrupted valid streams (flips inside table regions), structure-aware hostile tables and exhaustive small header grids, in direct-callback mode (state and output in separate exact-size blocks) and through lha_decoder_read with exact-size buffers; hooks catch far/intra-object indexing ASan cannot.',
+                note='A clean run is not memory safety; heap-layout dependent and intra-object errors outside array-typed indexing/hooks can escape.',
+                design='4/C09'),
+    'C14': dict(level='exploration', technique='runtime monitor of the decoder API contract: split-invariance against a single maximal read, independent bitwise CRC, progress-callback sequence checker; exhaustive read compositions for short outputs',
+                text='For every (method, stream, declared length) the bytes, reported length/CRC and callback sequence under many read schedules (all 2^(n-1) compositions for short outputs) are compared with one maximal read and an independent CRC.',
+                note='Input callback delivers full requests while data remains. Schedules sampled for long outputs.',
+                design='4/C14'),
     'C17': dict(level='exploration', technique='runtime differential monitor: library routine vs bitwise CRC-16/ARC definition, exhaustive enumeration of (state,byte) and (state,2 bytes), ASan on random buffers/splits',
                 text='Every (16-bit state, byte) pair is executed through lha_crc16_buf and compared with the bitwise definition (exhaustive, 2^24); thorough also runs all 2^32 (state, two-byte) inputs whole and split. Because CRC is a byte-wise state machine, agreement on every single step plus split-invariance on sampled buffers is the strongest observation a run can make of this routine.',
                 note='Trusts the 8-line bitwise reference (cross-checked in C and Python against the published check value 0xBB3D). Buffers longer than 2 bytes are sampled, not enumerated.',
